@@ -151,8 +151,8 @@ void root() {
   hooks().completion_required = true;
   lib_begin();
   int tier = cfg().tier;
-  static const size_t caps[] = {1, 2, 3, 5, 8, 16, 64};
-  S->cap = caps[gen(7)];
+  static const size_t caps[] = {1, 2, 3, 5, 8, 16, 64, 255, 256, 4080, 4096, 9000};
+  S->cap = gen(8) == 0 ? caps[7 + gen(5)] : caps[gen(7)];      // mostly tiny (full and empty are reached), sometimes across a page
   S->concurrent = gen(3) == 0;
   int nh = (int)gen_range(1, 3);
   // size arguments of the later handles: equal, larger, or (known-bad pattern, few runs) smaller
